@@ -1,15 +1,109 @@
 /-
   Driver handlers for the SshEnc model. `handle op args` returns `none` when the
   operation is not one of this file's.
+
+    sshenc <stored> <arity> <calls>
+      stored : 1 = the key file holds the declared key pair (key 1), 2 = another key
+               pair of the same type, x = a key of another kind; it opens under the
+               right passphrase only
+      arity  : number of stanza arguments the plain identity expects (ssh-rsa 1, ssh-ed25519 2)
+      calls  : `;`-separated `<stanzas>/<answer>`; answer r = right passphrase,
+               w = wrong passphrase, e = the callback fails;
+               stanzas `-` or `,`-separated `<ty>:<tag>:<nargs>:<body>` with
+               ty s = declared key type / o = another type, tag = number of the key
+               whose fingerprint is the first argument (`-` if nargs = 0), body =
+               number of the key the body was wrapped for (0 = none)
+      → `;`-separated `<prompted>:<class>` and ` cached=<0|1>`; classes: ok incorrect
+        malformed innererr (from the plain identity: wrong argument count / body
+        does not decrypt), cberr keyerr unexpected invalidkey mismatch
+
+  The plain identities (agessh.Ed25519Identity / RSAIdentity) are a parameter of
+  the model; here they are instantiated with `inner`, a small model of their
+  `multiUnwrap` loop.
 -/
 import AgeModel.Wire
+import AgeModel.SshEnc
 namespace AgeModel
 namespace Exec
 namespace SshEnc
+open AgeModel.SshEnc Wire
+
+inductive InnerRes where
+  | ok | incorrect | malformed | innerErr
+deriving DecidableEq
+
+/-- multiUnwrap of the plain identity for key `k`: a stanza of another type or with
+    another tag is passed over, a wrong argument count or a body that does not
+    decrypt is an error, the first stanza that decrypts wins -/
+def inner (arity : Nat) (k : KeyId) : List Stanza → InnerRes
+  | [] => .incorrect
+  | s :: ss =>
+    if s.type ≠ [1] then inner arity k ss
+    else if s.args.length ≠ arity then .malformed
+    else if s.args.head? ≠ some [k.toUInt8] then inner arity k ss
+    else if s.body = [k.toUInt8] then .ok else .innerErr
+
+def parseStanza (t : String) : Option Stanza :=
+  match splitOn t ':' with
+  | [ty, tag, nargs, body] =>
+    match nat? nargs, nat? body with
+    | some n, some b =>
+      let type : Bytes := if ty = "s" then [1] else [0]
+      if ty ≠ "s" ∧ ty ≠ "o" then none
+      else if n = 0 then (if tag = "-" then some ⟨type, [], [b.toUInt8]⟩ else none)
+      else match nat? tag with
+        | some g => some ⟨type, [g.toUInt8] :: List.replicate (n - 1) [255], [b.toUInt8]⟩
+        | none => none
+    | _, _ => none
+  | _ => none
+
+def parseCall (t : String) : Option Call :=
+  match splitOn t '/' with
+  | [ss, ans] =>
+    let stanzas := if ss = "-" then some [] else (splitOn ss ',').mapM parseStanza
+    let a : Option (Option Passphrase) :=
+      if ans = "r" then some (some [1]) else if ans = "w" then some (some [2])
+      else if ans = "e" then some none else none
+    match stanzas, a with
+    | some s, some a => some (s, a)
+    | _, _ => none
+  | _ => none
+
+def resStr : Result InnerRes → String
+  | .delegated .ok => "ok"
+  | .delegated .incorrect => "incorrect"
+  | .delegated .malformed => "malformed"
+  | .delegated .innerErr => "innererr"
+  | .incorrectIdentity => "incorrect"
+  | .errMalformed => "malformed"
+  | .errCallback => "cberr"
+  | .errDecryptKey => "keyerr"
+  | .errUnexpectedType => "unexpected"
+  | .errInvalidKey => "invalidkey"
+  | .errMismatch => "mismatch"
+
+def sshenc (args : List String) : String :=
+  match args with
+  | [stored, arity, calls] =>
+    let opened : Option Opened :=
+      if stored = "1" then some (.key 1) else if stored = "2" then some (.key 2)
+      else if stored = "x" then some .otherType else none
+    match opened, nat? arity, (if calls = "-" then some [] else (splitOn calls ';').mapM parseCall) with
+    | some o, some ar, some cs =>
+      let cfg : Config InnerRes :=
+        { keyType := [1], tag := [1], declared := 1,
+          openFile := fun p => if p = [1] then some o else none,
+          innerUnwrap := inner ar }
+      let r := run cfg fresh cs
+      let outs := r.2.map fun o => s!"{if o.prompted then 1 else 0}:{resStr o.result}"
+      s!"{";".intercalate outs} cached={if r.1.cached.isSome then 1 else 0}"
+    | _, _, _ => "bad-args"
+  | _ => "bad-arity"
 
 def handle (op : String) (args : List String) : Option String :=
-  match op, args with
-  | _, _ => none
+  match op with
+  | "sshenc" => some (sshenc args)
+  | _ => none
 
 end SshEnc
 end Exec
